@@ -17,7 +17,7 @@ tvars == <<vars, l, other, nres>>
 
 ToSet(q) == {q[i] : i \in DOMAIN q}
 PartOf(j) == [replicas |-> ToSet(j.replicas), isr |-> ToSet(j.isr), leader |-> j.leader, lepoch |-> j.lepoch,
-              epoch |-> j.epoch, paused |-> j.paused, ppaused |-> j.ppaused, ro |-> j.ro, roeff |-> j.roeff]
+              epoch |-> j.epoch, paused |-> j.paused, ppaused |-> j.ppaused, ro |-> j.ro, roeff |-> j.roeff, rec |-> j.rec]
 StreamsOf(js) == [s \in DOMAIN js |-> [tomb |-> js[s].tomb, parts |-> [i \in DOMAIN js[s].parts |-> PartOf(js[s].parts[i])]]]
 ProtoOf(j) == [replicas |-> ToSet(j.replicas), isr |-> ToSet(j.isr), leader |-> j.leader, lepoch |-> j.lepoch,
                epoch |-> j.epoch, ppaused |-> j.ppaused, ro |-> j.ro]
@@ -110,6 +110,7 @@ TraceNext ==
              /\ Chk(NoApplyError, "P", e, "NoApplyError")
              /\ Chk(RS_Streams, "P", e, "RS_Streams")
              /\ Chk(RS_RoEff, "P", e, "RS_RoEff")
+             /\ Chk(RS_Started, "P", e, "RS_Started")
              /\ Chk(RS_GroupMembers, "P", e, "RS_GroupMembers")
              /\ Chk(RS_GroupEpoch, "P", e, "RS_GroupEpoch")
              /\ Chk(RS_GroupAsg, "P", e, "RS_GroupAsg")
